@@ -147,6 +147,10 @@ RESIDUAL_TEMPLATES = [
     "{% liquid\n assign q = a | default: 5\n for i in (1..3)\n echo i\n if i == 2\n break\n endif\n endfor\n echo q %}",
     "{% case a %}{% when 1, 2 %}x{% when b or c %}y{% else %}z{% endcase %}",
 ]
+RESIDUAL_TERNARY = [
+    "{{ a | upcase if b else c | append: '!' }}|{{ 'x' if a else 'y' | upcase || prepend: '>' }}|{{ a if nosuch else b | default: 'd' | size }}",
+    "{% assign q = a | append: 'k' if items.size > 1 else b | prepend: 'j' %}{{ q }}{% echo s if true else t | upcase %}",
+]
 RESIDUAL_EXTRA = [
     "{% with p: a, q: items[0] %}{{ p }}{{ q }}{% with p: 2 %}{{ p }}{% endwith %}{{ p }}{% endwith %}{{ p }}",
     "{% macro m p, q: 'd' %}[{{ p }}|{{ q }}|{{ args | size }}|{{ kwargs | size }}]{% endmacro %}{% call m %}{% call m a %}{% call m 1, 2, 3, z: 4 %}{% call nosuch 1 %}{% call m q: b, p: c %}",
@@ -156,6 +160,11 @@ RESIDUAL_EXTRA = [
     "{% extends 'cyc1' %}{% block top %}x{% endblock %}",
     "{% translate you: a, count: n %}Hello, {{ you }}!{% plural %}Hello, all {{ count }} {{ you }}!{% endtranslate %}",
     "{{ 'Hello %(you)s' | t: you: a }}{{ 'x' | ngettext: 'xs', n }}{{ a | json }}{{ items | sort_numeric | join: ',' }}{{ items | index: 1 }}",
+]
+SNIPPET_TEMPLATES = [
+    "{% snippet s %}[{{ x | upcase }}{{ y.z }}{% assign w = 1 %}]{% endsnippet %}{% render s, x: 'a' %}{% render s %}{{ w }}",
+    "{% snippet s %}{% for i in items %}{{ i | append: q }}{% endfor %}{% endsnippet %}{% for k in (1..2) %}{% render s, q: k %}{% endfor %}{% render s with a as q %}",
+    "{% snippet a %}A{{ p }}{% endsnippet %}{% snippet b %}B{% render a, p: 1 %}{% include 'p' %}{% endsnippet %}{% render b %}{% render 'p' %}",
 ]
 RESIDUAL_PARTIALS = {
     "base": "HEAD{% block top %}base-top {{ a }}{% endblock %}MID{% block body %}bb{% block inner %}in{% endblock %}{% endblock %}TAIL",
@@ -198,6 +207,11 @@ class ResidualStream(RenderStream):
                     if rng.chance(40):
                         data["t"] = rng.choice(["p", "dir/q", "nosuch", 5])
                     out.append({"source": src, "partials": RESIDUAL_PARTIALS, "data": data, "flags": gen_flags(rng), "extra": extra, "autoescape": rng.chance(20), "mode": rng.choice(["strict", "strict", "lax", "warn"])})
+        for src in RESIDUAL_TERNARY + SNIPPET_TEMPLATES:
+            for _ in range(reps):
+                fl = gen_flags(rng)
+                fl["ternary_expressions"] = True
+                out.append({"source": src, "partials": RESIDUAL_PARTIALS, "data": gen_data(rng), "flags": fl, "extra": True, "autoescape": False, "snippet": True, "mode": "strict"})
         return out
 
 
@@ -329,6 +343,11 @@ class AnalyzeStream(Stream):
         out = [gen_program(rng.fork(str(i)), n_partials=rng.choice([0, 1, 2, 3])) for i in range(ctx.scale(600, 8000))]
         for src in RESIDUAL_PARTIAL_USES + RESIDUAL_EXTRA:
             out.append({"source": src, "partials": RESIDUAL_PARTIALS, "data": {}, "flags": {}, "extra": True, "autoescape": False})
+        # inline snippets (SnippetTag) and analysis without partials (seeded change C19-3: children_async returned
+        # nothing for include_partials=False, so snippet bodies were skipped on the async path only)
+        for src in SNIPPET_TEMPLATES + RESIDUAL_PARTIAL_USES:
+            for ip in (True, False):
+                out.append({"source": src, "partials": RESIDUAL_PARTIALS, "data": {}, "flags": {}, "extra": True, "autoescape": False, "snippet": True, "include_partials": ip})
         return out
 
     def impl(self, case):
@@ -336,13 +355,13 @@ class AnalyzeStream(Stream):
             env = make_env(case)
             t = env.from_string(case["source"])
             names = sorted(case["partials"])[:2]
-            return {"analysis": _analysis_view(t.analyze()), "tags": [outcome(lambda n=n: _tagview(env.analyze_tags(n))) for n in names + ["nosuch"]]}
+            return {"analysis": _analysis_view(t.analyze(include_partials=case.get("include_partials", True))), "tags": [outcome(lambda n=n: _tagview(env.analyze_tags(n))) for n in names + ["nosuch"]]}
 
         def asyn():
             env = make_env(case)
             t = env.from_string(case["source"])
             names = sorted(case["partials"])[:2]
-            return {"analysis": _analysis_view(run_async(lambda: t.analyze_async())), "tags": [outcome(lambda n=n: _tagview(run_async(lambda: env.analyze_tags_async(n)))) for n in names + ["nosuch"]]}
+            return {"analysis": _analysis_view(run_async(lambda: t.analyze_async(include_partials=case.get("include_partials", True)))), "tags": [outcome(lambda n=n: _tagview(run_async(lambda: env.analyze_tags_async(n)))) for n in names + ["nosuch"]]}
 
         return {"sync": outcome(sync), "async": outcome(asyn)}
 
